@@ -66,9 +66,12 @@ func ParseDuration(s string) (Duration, error) {
 		i++
 	}
 
+	// The magnitude of the most negative duration exceeds MaxInt64 by one, so quantities
+	// are kept unsigned and the total is accumulated as a non-positive number.
+	const maxMagnitude = uint64(1) << 63
 	var (
 		total    int64
-		value    int64
+		value    uint64
 		unit     string
 		hasValue bool
 	)
@@ -76,8 +79,8 @@ func ParseDuration(s string) (Duration, error) {
 	// ([0-9]+)(d|h|m|s|ms) ...
 	for i < len(s) && unitI < len(unitOrder) {
 		if unicode.IsDigit(rune(s[i])) {
-			digit := int64(s[i] - '0')
-			if value > (math.MaxInt64-digit)/10 {
+			digit := uint64(s[i] - '0')
+			if value > (maxMagnitude-digit)/10 {
 				return Duration{}, fmt.Errorf("%w: overflow", errDuration)
 			}
 			value = value*10 + digit
@@ -108,15 +111,15 @@ func ParseDuration(s string) (Duration, error) {
 				return Duration{}, fmt.Errorf("%w: unexpected unit '%s'", errDuration, unit)
 			}
 
-			millis := unitToMillis[unit]
-			if millis > 0 && value > math.MaxInt64/millis {
+			millis := uint64(unitToMillis[unit])
+			if millis > 0 && value > maxMagnitude/millis {
 				return Duration{}, fmt.Errorf("%w: overflow", errDuration)
 			}
 			product := value * millis
-			if total > math.MaxInt64-product {
+			if product > uint64(total-math.MinInt64) {
 				return Duration{}, fmt.Errorf("%w: overflow", errDuration)
 			}
-			total = total + product
+			total -= int64(product)
 			i++
 			hasValue = false
 			value = 0
@@ -135,7 +138,14 @@ func ParseDuration(s string) (Duration, error) {
 		return Duration{}, fmt.Errorf("%w: invalid duration", errDuration)
 	}
 
-	return Duration{value: negative * total}, nil
+	if negative == 1 {
+		if total == math.MinInt64 {
+			return Duration{}, fmt.Errorf("%w: overflow", errDuration)
+		}
+		total = -total
+	}
+
+	return Duration{value: total}, nil
 }
 
 // Equal returns true if the input represents the same duration
@@ -176,42 +186,43 @@ func (d Duration) String() string {
 		return "0ms"
 	}
 
-	remaining := d.value
+	// the magnitude is kept unsigned: -MinInt64 is not representable as an int64
+	remaining := uint64(d.value)
 	if d.value < 0 {
-		remaining = -d.value
+		remaining = -remaining
 		res.WriteByte('-')
 	}
 
-	days := remaining / consts.MillisPerDay
+	days := remaining / uint64(consts.MillisPerDay)
 	if days > 0 {
-		res.WriteString(strconv.FormatInt(days, 10))
+		res.WriteString(strconv.FormatUint(days, 10))
 		res.WriteByte('d')
 	}
-	remaining %= consts.MillisPerDay
+	remaining %= uint64(consts.MillisPerDay)
 
-	hours := remaining / consts.MillisPerHour
+	hours := remaining / uint64(consts.MillisPerHour)
 	if hours > 0 {
-		res.WriteString(strconv.FormatInt(hours, 10))
+		res.WriteString(strconv.FormatUint(hours, 10))
 		res.WriteByte('h')
 	}
-	remaining %= consts.MillisPerHour
+	remaining %= uint64(consts.MillisPerHour)
 
-	minutes := remaining / consts.MillisPerMinute
+	minutes := remaining / uint64(consts.MillisPerMinute)
 	if minutes > 0 {
-		res.WriteString(strconv.FormatInt(minutes, 10))
+		res.WriteString(strconv.FormatUint(minutes, 10))
 		res.WriteByte('m')
 	}
-	remaining %= consts.MillisPerMinute
+	remaining %= uint64(consts.MillisPerMinute)
 
-	seconds := remaining / consts.MillisPerSecond
+	seconds := remaining / uint64(consts.MillisPerSecond)
 	if seconds > 0 {
-		res.WriteString(strconv.FormatInt(seconds, 10))
+		res.WriteString(strconv.FormatUint(seconds, 10))
 		res.WriteByte('s')
 	}
-	remaining %= consts.MillisPerSecond
+	remaining %= uint64(consts.MillisPerSecond)
 
 	if remaining > 0 {
-		res.WriteString(strconv.FormatInt(remaining, 10))
+		res.WriteString(strconv.FormatUint(remaining, 10))
 		res.WriteString("ms")
 	}
 
